@@ -18,6 +18,7 @@ import (
 	"errors"
 	"fmt"
 	"time"
+	"unicode/utf8"
 
 	"github.com/notaryproject/notation-core-go/signature"
 	nx509 "github.com/notaryproject/notation-core-go/x509"
@@ -132,6 +133,15 @@ func validateSignRequest(req *signature.SignRequest) error {
 
 	if _, err := req.Signer.KeySpec(); err != nil {
 		return err
+	}
+
+	// a text key that is not valid UTF-8 cannot be represented in either
+	// format: JSON would silently replace the offending bytes, and a CBOR text
+	// string with such bytes is refused when the envelope is read back
+	for _, attr := range req.ExtendedSignedAttributes {
+		if key, ok := attr.Key.(string); ok && !utf8.ValidString(key) {
+			return &signature.InvalidSignRequestError{Msg: fmt.Sprintf("extended attribute key %q is not valid UTF-8", key)}
+		}
 	}
 
 	return validateSigningSchema(req.SigningScheme)
